@@ -54,8 +54,8 @@ proof fn lemma_header_attrs_ok()
     {'op': 'fn', 'path': 'IppAttribute::into_value', 'ret': 'r', 'spec': '    ensures r == self.sval(),'},
     {'op': 'fn', 'path': 'IppAttribute::to_bytes', 'ret': 'r',
      'spec': '''    requires size_ok(aval(self.sval())),
-    ensures (wf16(aval(self.sval())) && utf8(self.sname()).len() <= 0xffff) ==>
-        buf_seq(&r) == spec_attr_enc(self.sname(), aval(self.sval())),'''},
+    ensures c03((wf16(aval(self.sval())) && utf8(self.sname()).len() <= 0xffff) ==>
+        buf_seq(&r) =~= spec_attr_enc(self.sname(), aval(self.sval()))),'''},
     {'op': 'fn', 'path': 'IppAttributeGroup::new', 'ret': 'r', 'spec': '    ensures r.stag() == tag, r.sattrs() == Map::<String, IppAttribute>::empty(),'},
     {'op': 'fn', 'path': 'IppAttributeGroup::tag', 'ret': 'r', 'spec': '    ensures r == self.stag(),'},
     {'op': 'fn', 'path': 'IppAttributeGroup::attributes', 'ret': 'r', 'spec': '    ensures r@ == self.sattrs(),'},
@@ -77,8 +77,8 @@ proof fn lemma_header_attrs_ok()
      # no panic / overflow for every message whose values are encodable at all (groups_sizes: usize sums of string lengths);
      # the functional statement holds in the domain of C01/C03 (groups_wf)
      'spec': '''    requires groups_sizes(self.sgroups()),
-    ensures groups_wf(self.sgroups()) ==>
-        exists|ops: Seq<String>, others: Seq<(int, Seq<String>)>| attrs_enc_ok(self.sgroups(), buf_seq(&r), ops, others),''',
+    ensures c03(c09(groups_wf(self.sgroups()) ==>
+        exists|ops: Seq<String>, others: Seq<(int, Seq<String>)>| attrs_enc_ok(self.sgroups(), buf_seq(&r), ops, others))),''',
      'loops': {
          0: {'iter_name': 'it1', 'spec': '''
                 invariant
@@ -86,7 +86,7 @@ proof fn lemma_header_attrs_ok()
                     it_rem(it1.snapshot@).len() == hs.len(),
                     forall|q: int| 0 <= q < hs.len() ==> *(#[trigger] it_rem(it1.snapshot@)[q]) == hs[q],
                     wf ==> buf_seq(&buffer) == s1(0x01) + keys_enc(m, ops, ops.len()),
-                    wf ==> loop1_inv(m, hs, ops, qs, it1.index@),
+                    c09(wf ==> loop1_inv(m, hs, ops, qs, it1.index@)),
 '''},
          2: {'iter_name': 'it3', 'spec': '''
             invariant
@@ -102,8 +102,8 @@ proof fn lemma_header_attrs_ok()
                     m == group.sattrs(), attrs_sizes(m), wf ==> attrs_wf(m), hs == IppAttribute::HEADER_ATTRS@, hdrs_ok(hs),
                     iter_facts(m, it_rem(it2.snapshot@)),
                     wf ==> buf_seq(&buffer) == s1(0x01) + keys_enc(m, ops, ops.len()),
-                    wf ==> loop1_inv(m, hs, ops1, qs, hs.len() as int),
-                    wf ==> loop2_inv(m, ops1, iter_keys(it_rem(it2.snapshot@)), ops, ps, it2.index@),
+                    c09(wf ==> loop1_inv(m, hs, ops1, qs, hs.len() as int)),
+                    c09(wf ==> loop2_inv(m, ops1, iter_keys(it_rem(it2.snapshot@)), ops, ps, it2.index@)),
 '''},
          {'loop': 3, 'kind': 'values', 'iter_name': 'it4', 'spec': '''
                 invariant
